@@ -23,12 +23,21 @@ CONSTANTS Addrs,        \* listening addresses (<= 3)
           Successor,    \* TRUE: hand-over to a successor; FALSE: plain soft stop
           Alphabet,     \* "request": the slots start in (and only move through) the stages of the REQUEST;
                         \* "response": they start awaiting / receiving the RESPONSE and the delivery actions are
-                        \* enabled (two exhaustive configurations instead of one product: see InitSlots)
+                        \* enabled (exhaustive configurations side by side instead of one product: see InitSlots);
+                        \* "flow": they start in the stages of an exchange that has MORE steps than "request, then
+                        \* response" (body withheld until 100 Continue, 103 Early Hints, upgrade handshake, early
+                        \* final response, a second request pipelined behind the one in flight) and the interim
+                        \* actions are enabled; "trace": every action is enabled (trace validation)
           Deviations    \* switchable defect classes, modelled as the code would behave:
                         \*   "QuiescedBeforeFlushed": a pass of shut_down_sessions takes a session whose response was
                         \*   read to its end from the backend for finished although its tail is still buffered in the
                         \*   worker (Stream::is_quiesced / Mux::shutting_down without the "nothing left to write"
                         \*   conjuncts). No open finding uses it: it is the self-test of P_C10b (TLC must refute it).
+                        \*   "ClosedAfterInterim": once a pass of shut_down_sessions has seen a session with a
+                        \*   request in flight, the next "message complete" on it - which an interim response (100
+                        \*   Continue, 103 Early Hints) is - ends the session: the exchange is cut in its middle
+                        \*   (e.g. Mux::shutting_down flagging Linked streams `closing`, tested by
+                        \*   ConnectionH1::writable before the 1xx cases). Self-test as well.
 
 Protos == {"http", "https", "tcp", "udp"}
 FdStates == {"old", "inFlightToMaster", "master", "inFlightToNew", "newHeld", "new", "closed"}
@@ -47,12 +56,24 @@ Stages == {"none",            \* free slot
            "respTail",        \* the backend has finished (and, if it closed, was released: stream Unlinked); the rest
                               \* of the response is buffered in the worker, waiting for the client to read
            "h2RespStreaming",
-           "h2RespTail"}
+           "h2RespTail",
+           \* an exchange with more steps than "request, then response" (the stream is Linked in all of them):
+           "expectHead",      \* head with `Expect: 100-continue` forwarded, the client withholds the body until the
+                              \* interim response
+           "hinted",          \* request complete, an interim response (103 Early Hints) was relayed, the final
+                              \* response is still to come
+           "h2Hinted",
+           "upgrading",       \* upgrade handshake: head with `Upgrade` forwarded, the 101 is still to come (after it
+                              \* the connection is a tunnel, which a stop closes like a TCP relay)
+           "pipelined"}       \* request complete and in flight, and the NEXT request of the connection is already in
+                              \* the worker's buffer (not parsed, not forwarded)
 TailStages == {"respTail", "h2RespTail"}
 RespStages == {"respStreaming", "h2RespStreaming"} \cup TailStages
-HeadComplete(s) == s \in {"midBody", "awaitResp", "h2Open", "h2Await"} \cup RespStages
-IsH2(s) == s \in {"h2Open", "h2Await", "h2RespStreaming", "h2RespTail"}
-RespEnabled == Alphabet # "request"
+FlowStages == {"expectHead", "hinted", "h2Hinted", "upgrading", "pipelined"}
+HeadComplete(s) == s \in {"midBody", "awaitResp", "h2Open", "h2Await"} \cup RespStages \cup FlowStages
+IsH2(s) == s \in {"h2Open", "h2Await", "h2RespStreaming", "h2RespTail", "h2Hinted"}
+RespEnabled == Alphabet \in {"response", "trace"}
+FlowEnabled == Alphabet \in {"flow", "trace"}
 
 VARIABLES
   proto,      \* [Addrs -> Protos]
@@ -80,6 +101,9 @@ InitSlots ==
   IF Alphabet = "request"
   THEN {FreeSlot, Slot("preHeaders", FALSE), Slot("preHeaders", TRUE), Slot("midBody", FALSE),
         Slot("awaitResp", FALSE), Slot("idleKeepAlive", FALSE), Slot("h2Open", FALSE), Slot("h2Await", FALSE)}
+  ELSE IF Alphabet = "flow"
+  THEN {FreeSlot, Slot("expectHead", FALSE), Slot("awaitResp", FALSE), Slot("upgrading", FALSE),
+        Slot("midBody", FALSE), Slot("pipelined", FALSE), Slot("h2Await", FALSE), Slot("h2Open", FALSE)}
   ELSE {FreeSlot, Slot("idleKeepAlive", FALSE), Slot("awaitResp", FALSE), Slot("h2Await", FALSE),
         Slot("respStreaming", FALSE), Slot("respTail", FALSE), Slot("h2RespStreaming", FALSE),
         Slot("h2RespTail", FALSE)}
@@ -206,6 +230,9 @@ Old_SoftStop ==
 \* and when no session is left the worker answers Ok once.
 \*   response being delivered (backend still sending, or  -> kept until the client has everything
 \*   finished with the tail buffered in the worker)          (H2: or the graceful deadline elapsed)
+\*   exchange in one of its intermediate stages (body     -> kept, like any request in flight: an interim
+\*   withheld, interim relayed, upgrade pending, next         response, a 101, the end of the first of two pipelined
+\*   request buffered)                                        exchanges are not the end of the session
 \* The result is a SET: the code has a legitimate choice for partial heads; the deviation is one more choice.
 PassOnSet(s) ==
   IF s.stage = "none" \/ s.st # "open" THEN {s}
@@ -265,9 +292,30 @@ Client_NewRequest(r)      == req[r].stage = "idleKeepAlive" /\ ReqStep(r, "preHe
 
 \* the backend answers, the old worker relays the whole response; afterwards the connection is idle
 \* (and is closed by the next pass if the worker is stopping)
+\* With the flow stages: the final response may also come after interim ones (hinted), be the 101 of an upgrade
+\* (the exchange the property protects is the handshake), overtake the body (midBody, h2Open, expectHead: the
+\* backend answered from the head; the worker closes the connection after the response), or end the first of two
+\* pipelined exchanges - the connection then carries a request that was read but not parsed nor forwarded, which
+\* is the state "preHeaders with bytes" (kept or closed by a pass; served if the client is lucky).
+RespondStages == {"awaitResp", "h2Await"} \cup
+                 (IF FlowEnabled THEN {"hinted", "h2Hinted", "upgrading", "midBody", "h2Open", "expectHead", "pipelined"} ELSE {})
 Backend_Respond(r) ==
-  /\ oldPhase \in LiveOld /\ Occupied(r) /\ req[r].stage \in {"awaitResp", "h2Await"}
-  /\ req' = [req EXCEPT ![r] = [@ EXCEPT !.st = "done"]]
+  /\ oldPhase \in LiveOld /\ Occupied(r) /\ req[r].stage \in RespondStages
+  /\ req' = [req EXCEPT ![r] = IF @.stage = "pipelined" THEN Slot("preHeaders", TRUE) ELSE [@ EXCEPT !.st = "done"]]
+  /\ UNCHANGED <<proto, fd, sock, closedBy, manifest, oldPhase, newPhase, mpc, chan, resp, stopSent, draining,
+                 deadlinePassed, acks, acceptedAfterStop>>
+
+\* an interim response is relayed: 100 Continue to a client that withholds its body (which it now sends: midBody),
+\* 103 Early Hints before the final response. For the worker a complete message went through; the exchange goes on.
+\* Deviation ClosedAfterInterim: in a stopping worker (a pass has flagged the session) that message ends the
+\* session - H1 only, the H2 front does not consult the flag.
+InterimStages == {"expectHead", "awaitResp", "h2Await"}
+AfterInterim(s) == IF s = "expectHead" THEN "midBody" ELSE IF s = "awaitResp" THEN "hinted" ELSE "h2Hinted"
+Backend_Interim(r) ==
+  /\ FlowEnabled /\ oldPhase \in LiveOld /\ Occupied(r) /\ req[r].stage \in InterimStages
+  /\ \/ req' = [req EXCEPT ![r].stage = AfterInterim(req[r].stage)]
+     \/ /\ "ClosedAfterInterim" \in Deviations /\ oldPhase = "softStopping" /\ ~IsH2(req[r].stage)
+        /\ req' = [req EXCEPT ![r] = [@ EXCEPT !.stage = AfterInterim(req[r].stage), !.st = "cut", !.why = "stop"]]
   /\ UNCHANGED <<proto, fd, sock, closedBy, manifest, oldPhase, newPhase, mpc, chan, resp, stopSent, draining,
                  deadlinePassed, acks, acceptedAfterStop>>
 
@@ -310,10 +358,11 @@ OldNext    == Old_ReturnListenSockets \/ Old_SoftStop \/ Old_ShutDownSessions \/
 EnvNext    == \E r \in Reqs : Client_SendPartialHead(r) \/ Client_SendHead(r) \/ Client_FinishBody(r)
                               \/ Client_NewRequest(r) \/ Backend_Respond(r)
                               \/ Backend_SendPart(r) \/ Backend_Finish(r) \/ Client_ReadSome(r)
+                              \/ Backend_Interim(r)
 Progress   == MasterNext \/ NewNext \/ Old_ReturnListenSockets \/ Old_SoftStop \/ Old_ShutDownSessions \/ Old_Exit
               \/ Tick_Deadline
               \/ \E r \in Reqs : Client_SendHead(r) \/ Client_FinishBody(r) \/ Backend_Respond(r)
-                              \/ Backend_Finish(r) \/ Client_ReadSome(r)
+                              \/ Backend_Finish(r) \/ Client_ReadSome(r) \/ Backend_Interim(r)
 
 Next == MasterNext \/ NewNext \/ OldNext \/ EnvNext \/ Tick_Deadline \/ Old_Die
 
